@@ -26,6 +26,7 @@ enum ShimFault {
 	F_STALL,              // task descheduled for a stretch
 	F_WRITE_LOST,         // write reports success but data is dropped
 	F_SMALL_SNDBUF,
+	F_ALLOC_ENOMEM,       // malloc / calloc / realloc called by libqb returns NULL
 	F_N
 };
 extern const char *const shim_fault_names[F_N];
@@ -53,6 +54,7 @@ struct ShimCfg {
 	uint32_t rate_falloc, rate_unlink, rate_emfile, rate_mmap, rate_epoll_shuffle;
 	int realloc_always_moves;
 	uint32_t rate_kill, rate_write_lost;
+	uint32_t rate_alloc;        // allocation failure (malloc / calloc / realloc made by libqb code)
 	int kill_spid;              // sim process that may be killed at any of its libc calls (0: nobody)
 	int64_t kill_countdown;     // > 0: that process dies at its n-th libc call from now (armed by a harness at a chosen instant)
 	int kill_after_short_send;  // that process dies right after a send that an injected fault cut short (handshake prefixes)
